@@ -556,6 +556,9 @@ def _mark_reuse(r, ops):
             if it['obj'] not in mine:
                 mine.append(it['obj'])
             used_here.add(it['obj'])
+        if op['op'] == 'gets' and op.get('cells') and r.random() < 0.15:
+            # the very same object listed twice in one get_cells call
+            op['cells'].append(dict(op['cells'][-1]))
         out.append(op)
         if op['op'] == 'set' and op.get('cells') and r.random() < 0.25:
             # ... or changes the value of an object it passed, without sending it again
